@@ -295,6 +295,10 @@ func (m *monitor) Snapshot() []kemtypes.ObjectAndFilterResult {
 // EnableKubeEventCb allows execution of event callback for all informers.
 // Also executes eventCb for events accumulated during "Synchronization" phase.
 func (m *monitor) EnableKubeEventCb() {
+	// Enable events for future VaryingInformers first: a namespace callback stores its new
+	// informers before it reads this flag, so informers it created with the flag still unset
+	// are seen by the loops below, and later ones enable themselves.
+	m.eventsEnabled = true
 	for _, informer := range m.ResourceInformers {
 		informer.enableKubeEventCb()
 	}
@@ -304,8 +308,6 @@ func (m *monitor) EnableKubeEventCb() {
 			informer.enableKubeEventCb()
 		}
 	})
-	// Enable events for future VaryingInformers.
-	m.eventsEnabled = true
 }
 
 // CreateInformersForNamespace creates informers bounded to the namespace. If no matchName is specified,
